@@ -2,16 +2,17 @@
 """seed_matrix.py [ids...] -- run every seeded change against the check of its property on a scratch copy of /repo
 (VERIF_REPO), record exit code and the named obligations in seeded/RESULTS.json (and a table for DESIGN.md)."""
 import json, os, subprocess, sys, glob, re, shutil
-V = "/verif"
+V = os.environ.get("SEED_V", "/verif")  # SEED_V: a snapshot of /verif; SEED_BASE: the tree the patches are applied to
+BASE = os.environ.get("SEED_BASE", "/repo")
 ids = sys.argv[1:] or sorted(os.path.basename(d.rstrip("/")) for d in glob.glob(V + "/seeded/C*_*/"))
-resp = os.path.join(V, "seeded", "RESULTS.json")
+resp = os.path.join("/verif", "seeded", "RESULTS.json")
 res = json.load(open(resp)) if os.path.exists(resp) else {}
 for i in ids:
     prop = i.split("_")[0]
     s = f"/tmp/seedrepo_{i}"
     shutil.rmtree(s, ignore_errors=True)
-    subprocess.run(["rsync", "-a", "--exclude", "target", "--exclude", ".git", "/repo/", s + "/"], check=True)
-    a = subprocess.run(f"cd {s} && git init -q . && git apply {V}/seeded/{i}/patch.diff", shell=True, capture_output=True, text=True)
+    subprocess.run(["rsync", "-a", "--exclude", "target", "--exclude", ".git", BASE.rstrip("/") + "/", s + "/"], check=True)
+    a = subprocess.run(f"cd {s} && git init -q . && git apply /verif/seeded/{i}/patch.diff", shell=True, capture_output=True, text=True)
     if a.returncode != 0:
         res[i] = {"property": prop, "exit": None, "note": "patch does not apply: " + a.stderr[:200]}
         continue
